@@ -102,15 +102,17 @@ def abstract_machines(tier):
     return out
 
 
-def to_spec(states, events, multi=None):
+def to_spec(states, events, multi=None, asyn=False):
     trans = []
-    prov = [("sm", "g1", ""), ("sm", "g2", ""), ("sm", "after_transition", "")]
+    fl = "a" if asyn else ""
+    prov = [("sm", "g1", ""), ("sm", "g2", ""), ("sm", "after_transition", fl)]
     for (name, ats, on) in events:
         for at in ats:
             evs = (name,) if not multi else multi
             trans.append(T(at.src, at.dst, evs, cond=at.cond, unless=at.unless))
         if on:
-            prov.append(("sm", f"on_{name}", ""))
+            for nm in (multi or (name,)):
+                prov.append(("sm", f"on_{nm}", fl))
     sts = tuple(S(i, initial=ini, final=fin, value=v) for (i, v, ini, fin) in states)
     return M(states=sts, trans=tuple(trans), provided=tuple(prov))
 
@@ -421,11 +423,17 @@ def MK(name):
     return _mk_sync(name)
 
 
-def exec_class(lines, inherit=False):
+def MKA(name):
+    """actions are coroutine functions, guards stay plain"""
+    from ..spec import _mk_async, _mk_sync
+    return _mk_async(name) if name.startswith(("on_", "after_")) else _mk_sync(name)
+
+
+def exec_class(lines, inherit=False, asyn=False):
     from statemachine import Event, State, StateMachine
     from statemachine.states import States
     ns = {"State": State, "StateMachine": StateMachine, "States": States, "Event": Event,
-          "enum": enum, "MK": MK}
+          "enum": enum, "MK": MKA if asyn else MK}
     guards = ["g1 = MK('g1')", "g2 = MK('g2')", "after_transition = MK('after_transition')",
               "_prov = 'sm'"]
     src = "class R(StateMachine):\n" + "".join("    " + ln + "\n" for ln in lines + guards)
@@ -497,7 +505,10 @@ def cmp_structure(a, b):
     return None
 
 
-def behaviour(cls, m, inst_enum=False):
+ACFGS = (Cfg("async", True, False, "facade"), Cfg("async", True, True, "inloop"))
+
+
+def behaviour(cls, m, inst_enum=False, cfgs=None):
     """Product exploration of the rendering against the reference."""
     if inst_enum:
         # the rendering stores enum members as state values: same machine, typed values
@@ -509,10 +520,12 @@ def behaviour(cls, m, inst_enum=False):
     built.tidx_of = None
     names = ["g1", "g2"]
     steps = 0
-    for cfg in CFGS:
+    for cfg in (cfgs or CFGS):
         p = Pair(built, cfg)
         p.impl.env.tidx_of = _AnyIdx()
         msg = p.construct()
+        if msg is None and cfg.engine == "async":
+            msg = p.activate()
         if msg:
             return f"construct: {msg}", steps
         salt = 0
@@ -545,14 +558,15 @@ class _AnyIdx(dict):
         return None
 
 
-def multi_event_family():
-    """One transition list bound to two events, in several styles."""
+def multi_event_family(asyn=False):
+    """One transition list bound to two events, in several styles; each event has its own
+    `on_<event>` callback, which runs for its event only (coroutine functions when asyn)."""
     states = [("a", 1, True, False), ("b", 2, False, False), ("c", 3, False, False)]
     ats = [AT(("a", "b", ("g1",), ())), AT(("a", "c", (), ())), AT(("b", "a", (), ())),
            AT(("c", "a", (), ()))]
-    events = [("e1", ats, False)]
-    m = to_spec(states, events, multi=("e1", "e2"))
-    base = states_attr(states)
+    events = [("e1", ats, True)]
+    m = to_spec(states, events, multi=("e1", "e2"), asyn=asyn)
+    base = states_attr(states) + ["on_e1 = MK('on_e1')", "on_e2 = MK('on_e2')"]
     tl = " | ".join(t_to(at) for at in ats)
     styles = {
         "two-attributes": base + [f"e1 = e2 = {tl}"],
@@ -612,9 +626,11 @@ def worker(block):
         res.stats["states"] += 1
         return res
     if block[0] == "multi":
-        m, styles = multi_event_family()
-        for name, lines in styles.items():
-            _check_rendering(res, m, name, lines, {"multi": name})
+        for asyn in (False, True):
+            m, styles = multi_event_family(asyn)
+            for name, lines in styles.items():
+                _check_rendering(res, m, name + (" [async]" if asyn else ""), lines,
+                                 {"multi": name, "asyn": asyn}, asyn=asyn)
         return res
     tier, lo, hi = block
     for (states, events) in abstract_machines(tier)[lo:hi]:
@@ -641,13 +657,13 @@ def worker(block):
     return res
 
 
-def _check_rendering(res, m, rname, lines, sc, inherit=False):
+def _check_rendering(res, m, rname, lines, sc, inherit=False, asyn=False):
     res.stats["evaluations"] += 1
     res.hist[rname] += 1
     try:
         with deadline(60):
             try:
-                cls, src = exec_class(lines, inherit)
+                cls, src = exec_class(lines, inherit, asyn)
             except BaseMutated as e:
                 res.violation({"category": "base-class-mutated-by-subclass-definition",
                                "renderer": rname}, sc, f"[{rname}] {e}\n" + "\n".join(lines))
@@ -664,7 +680,7 @@ def _check_rendering(res, m, rname, lines, sc, inherit=False):
                 return
             msg, steps = behaviour(cls, m, inst_enum=rname in (
                 "States.from_enum-instance", "States.from_enum-str",
-                "States.from_enum-str-instance"))
+                "States.from_enum-str-instance"), cfgs=ACFGS if asyn else None)
             res.stats["transitions"] += steps
             if msg:
                 res.violation({"category": "behaviour", "renderer": rname}, sc,
@@ -707,8 +723,8 @@ def replay(sc):
         _check_rendering(res, m, sc["multi_any"], styles[sc["multi_any"]], sc)
         return res.violations[0]["message"] if res.violations else None
     if "multi" in sc:
-        m, styles = multi_event_family()
-        _check_rendering(res, m, sc["multi"], styles[sc["multi"]], sc)
+        m, styles = multi_event_family(sc.get("asyn", False))
+        _check_rendering(res, m, sc["multi"], styles[sc["multi"]], sc, asyn=sc.get("asyn", False))
     else:
         states = [tuple(s) for s in sc["states"]]
         events = [(n, [AT((a[0], a[1], tuple(a[2]), tuple(a[3]))) for a in ats], on)
